@@ -99,8 +99,9 @@ func c08stress(c *Ctx) {
 			}
 			var own []string
 			if r.P(70) {
-				e.Set(fmt.Sprintf("own%d", i), fmt.Sprintf("O%d", i))
-				own = append(own, fmt.Sprintf("own%d", i))
+				// unsorted, with a duplicate: formatting has to sort and dedupe them for every record
+				e.Set("zeta", 1, fmt.Sprintf("own%d", i), fmt.Sprintf("O%d", i), "alpha", 2, "zeta", 9)
+				own = append(own, fmt.Sprintf("own%d", i), "alpha", "zeta")
 				if r.Bool() {
 					e.SetAttrs(sharedLoggerGroup)
 					own = append(own, "lg.c", "lg.k", "lg.w")
@@ -162,6 +163,20 @@ func c08stress(c *Ctx) {
 						for j := 0; j < 150+gr.Intn(200); j++ {
 							args = append(args, fmt.Sprintf("x%03d", j), id)
 						}
+					}
+					if gr.P(20) { // a call without arguments of its own: only the logger's attributes are printed
+						msg = "n-" + id
+						if multiline {
+							msg += "\nl2-" + id
+						}
+						if gr.Bool() {
+							l.Info(msg)
+						} else {
+							l.WarnContext(bg, msg)
+						}
+						mine[li] = append(mine[li], id)
+						atomic.AddInt64(&calls, 1)
+						continue
 					}
 					switch gr.Intn(4) {
 					case 0:
@@ -280,8 +295,9 @@ func c08judge(f Format, p []byte, ownKeys []string, multiline bool) (id string, 
 		return "", "does not decode: " + err.Error()
 	}
 	m := d.Msg
-	if !strings.HasPrefix(m, "m-g") {
-		return "", "message does not start with m-<id>: " + q(clip(m, 80))
+	noArgs := strings.HasPrefix(m, "n-g")
+	if !strings.HasPrefix(m, "m-g") && !noArgs {
+		return "", "message does not start with m-<id> / n-<id>: " + q(clip(m, 80))
 	}
 	end := 2
 	for end < len(m) && (m[end] == 'g' || m[end] == 'k' || (m[end] >= '0' && m[end] <= '9')) {
@@ -297,6 +313,21 @@ func c08judge(f Format, p []byte, ownKeys []string, multiline bool) (id string, 
 			return id, "attribute " + a.Key + " appears twice"
 		}
 		got[a.Key] = a.Text
+	}
+	if noArgs {
+		// exactly the logger's attributes, each once, with the duplicate resolved to its last value
+		for _, k := range ownKeys {
+			if _, ok := got[k]; !ok {
+				return id, fmt.Sprintf("logger attribute %s missing (attributes: %v)", k, briefAttrs(d.Attrs))
+			}
+		}
+		if v, ok := got["zeta"]; ok && v != "9" {
+			return id, fmt.Sprintf("logger attribute zeta=%s, the later duplicate (9) must win", v)
+		}
+		if len(got) != len(uniqStrings(ownKeys)) {
+			return id, fmt.Sprintf("record of a call without arguments carries %d attributes, the logger chain has %d: %v", len(got), len(uniqStrings(ownKeys)), briefAttrs(d.Attrs))
+		}
+		return id, ""
 	}
 	want := map[string]string{"id": id, "a1": id + "-a1", "pc.id": id, "sg.a": "A", "sg.m": "M", "sg.z": "Z", "sg.q.b": "1", "sg.q.y": "2", "spy": "7"}
 	for k, v := range want {
@@ -319,6 +350,9 @@ func c08judge(f Format, p []byte, ownKeys []string, multiline bool) (id string, 
 		if _, ok := got[k]; !ok {
 			return id, fmt.Sprintf("logger attribute %s missing (attributes: %v)", k, briefAttrs(d.Attrs))
 		}
+	}
+	if v, ok := got["zeta"]; ok && v != "9" {
+		return id, fmt.Sprintf("logger attribute zeta=%s, the later duplicate (9) must win", v)
 	}
 	// nothing foreign: every x### attribute carries this id
 	n := 0
@@ -345,6 +379,18 @@ func c08judge(f Format, p []byte, ownKeys []string, multiline bool) (id string, 
 	}
 	_ = extra
 	return id, ""
+}
+
+func uniqStrings(l []string) []string {
+	seen := map[string]bool{}
+	var out []string
+	for _, x := range l {
+		if !seen[x] {
+			seen[x] = true
+			out = append(out, x)
+		}
+	}
+	return out
 }
 
 func briefAttrs(as []flatKV) string {
